@@ -108,4 +108,19 @@ PROPS = {
         assumptions=["reflect's contract (AssignableTo on the type universe, which operations panic) is modelled",
                      "Call without a CallArgs option for a function that needs arguments is outside the property's scope"],
     ),
+    "C15": dict(
+        lean_targets=["BB.Props.C15"],
+        theorems=["BB.Props.C15.build_wf", "BB.Props.C15.iter_exit", "BB.Props.C15.iter_failure", "BB.Props.C15.iter_success",
+                  "BB.Props.C15.iter_never_bad", "BB.Props.C15.accounting", "BB.Props.C15.publish_exactly_once"],
+        corr=[dict(family="notifier", quick=300, thorough=20000, mismatch_is_violation=True,
+                   nontrivial=has("middle_guard_cancelled", "cancel_among_3", "nil_value", "pub_cancelled", "dup_sub", "bad_unsub", "some_ineligible"),
+                   rule="notifier: 3-7 subscriptions (with/without contexts, element types any/int/*int/error, two keys), duplicate Subscribe and unmatched "
+                        "Unsubscribe (panic expected, registry size compared), publishes of int / *int / error / untyped nil values with and without a publish context; "
+                        "during a publish readiness is released one case at a time in a scripted order (receive on one target or cancel one context), which forces "
+                        "reflect.Select's choice; after every choice the loop's failureRefs and the number of pending sends (verif hook) must equal the Lean model's; "
+                        "non-trivial = a guarded subscriber in the middle cancelled while others are pending, nil value, cancelled publish, registry panics, "
+                        "ineligible subscribers present")],
+        assumptions=["reflect.Select is modelled as an arbitrary choice among the ready cases (the harness makes exactly one case ready at a time)",
+                     "subscriber ids are pairwise distinct per key (the registry is a map keyed by the channel pointer)"],
+    ),
 }
